@@ -106,6 +106,59 @@ class Obj:
         self.cls, self.vars = cls, vars
 
 
+class BuiltIn:
+    """a list built-in bound by `lookup` (the receiver arrives as first argument through ld_self)"""
+    __slots__ = ("name",)
+
+    def __init__(self, name):
+        self.name = name
+
+
+def list_builtin(o, name, recv, args):
+    """semantics of the list built-ins on a ListRef (shared by both executors; what the built-ins themselves do is C13's engine-B
+    kernel - here they only have to be the same on both sides).  -> return value or None"""
+    if not isinstance(recv, ListRef):
+        raise Unsupported("list built-in on a non-list")
+    items = recv.items
+    if name == "len":
+        return len(items)
+    if name == "push":
+        items.append(args[0])
+        return None
+    if name == "clear":
+        del items[:]
+        return None
+    if name == "reverse":
+        items.reverse()
+        return None
+    if name == "clone":
+        return ListRef(list(items))
+    if name == "remove":
+        idx = args[0]
+        if is_sym(idx):
+            chosen = None
+            for k in range(len(items)):
+                if o.branch(idx == z3.BitVecVal(k, 32)):
+                    chosen = k
+                    break
+            if chosen is None:
+                raise Fail("remove", "index out of range")
+            idx = chosen
+        if not isinstance(idx, int) or idx < 0 or idx >= len(items):
+            raise Fail("remove", "index out of range")
+        return items.pop(idx)
+    if name == "join":
+        other = args[0]
+        if not isinstance(other, ListRef):
+            raise Unsupported("join with a non-list")
+        items.extend(list(other.items))      # join(o): the receiver itself, extended by a copy of o's contents (C13's oracle)
+        return recv
+    raise Unsupported("list built-in " + name)
+
+
+LIST_BUILTINS = ("len", "push", "clear", "reverse", "clone", "remove", "join")
+
+
 def is_sym(v):
     return isinstance(v, z3.ExprRef)
 
@@ -338,6 +391,17 @@ def equals(a, b):
         return a is NIL and b is NIL
     if isinstance(a, Obj) and isinstance(b, Obj):
         return a is b
+    if isinstance(a, ListRef) and isinstance(b, ListRef):
+        if len(a.items) != len(b.items):
+            return False
+        acc = True
+        for x, y in zip(a.items, b.items):
+            e = equals(x, y)
+            if e is False:
+                return False
+            if e is not True:
+                acc = e if acc is True else z3.And(acc, e)
+        return acc
     if is_int(a) and is_int(b):
         if not is_sym(a) and not is_sym(b):
             return a == b
